@@ -10,7 +10,10 @@ from common import hx
 LEAN_MODULES = ["Pff.Props.C10"]
 PROP_MODULE = "Pff.Props.C10"
 THEOREMS = ["Pff.Layout.C10_tiles", "Pff.Layout.C10_agree_whole", "Pff.Layout.C10_track_length",
-            "Pff.Layout.C10_header_tiles", "Pff.Layout.C10_agree_header", "Pff.Layout.C10_stage_rule"]
+            "Pff.Layout.C10_header_tiles", "Pff.Layout.C10_agree_header", "Pff.Layout.C10_stage_rule",
+            "Pff.Layout.C10_read_rule_agrees",
+            "Pff.Layout.C10_layout_congr",
+            "Pff.Layout.C10_track_congr"]
 MODELLED = [("pyFileFixity/structural_adaptive_ecc.py", "stream_compute_ecc_hash"),
             ("pyFileFixity/structural_adaptive_ecc.py", "stream_entry_assemble"),
             ("pyFileFixity/structural_adaptive_ecc.py", "feature_scaling"),
